@@ -20,7 +20,9 @@ pub fn tag_value(v: &Value) -> Value {
                         return json!({"t": "int", "v": f as i64});
                     }
                 }
-                json!({"t": "num", "s": n.to_string()})
+                // `i`: the number is integral (too large for the evaluator's integers)
+                let integral = n.is_i64() || n.is_u64() || n.as_f64().map(|f| f.fract() == 0.0).unwrap_or(false);
+                json!({"t": "num", "s": n.to_string(), "i": integral})
             }
         },
         Value::String(s) => json!({"t": "str", "v": s}),
@@ -228,7 +230,7 @@ pub fn normalise_defs(defs: Option<&Map<String, Value>>) -> Value {
 // ---------------------------------------------------------------------------
 // probes
 // ---------------------------------------------------------------------------
-fn resolve<'a>(defs: &'a Map<String, Value>, s: &'a Value, depth: usize) -> &'a Value {
+pub fn resolve<'a>(defs: &'a Map<String, Value>, s: &'a Value, depth: usize) -> &'a Value {
     if depth > 8 {
         return s;
     }
@@ -292,17 +294,21 @@ pub fn sample_valid(defs: &Map<String, Value>, s: &Value, depth: usize) -> Value
         }
         Some("string") => {
             let min = s.get("minLength").and_then(|x| x.as_u64()).unwrap_or(0) as usize;
+            let max = s.get("maxLength").and_then(|x| x.as_u64()).map(|x| x as usize);
             match s.get("format").and_then(|f| f.as_str()) {
                 Some("uuid") => json!("6f1c2f3a-1111-4222-8333-444455556666"),
                 Some("date-time") => json!("2024-01-02T03:04:05Z"),
                 Some("date") => json!("2024-01-02"),
                 Some("ipv4") | Some("ip") => json!("10.0.0.1"),
                 Some("ipv6") => json!("::1"),
-                _ => json!("s".repeat(min.max(1))),
+                _ => json!("s".repeat(match max { Some(m) => min.max(1).min(m), None => min.max(1) })),
             }
         }
         Some("array") => {
-            let n = s.get("minItems").and_then(|x| x.as_u64()).unwrap_or(if depth == 0 { 1 } else { 0 }) as usize;
+            let mut n = s.get("minItems").and_then(|x| x.as_u64()).unwrap_or(if depth == 0 { 1 } else { 0 }) as usize;
+            if let Some(m) = s.get("maxItems").and_then(|x| x.as_u64()) {
+                n = n.min(m as usize);
+            }
             let item = s.get("items").map(|i| sample_valid(defs, i, depth + 1)).unwrap_or(json!(1));
             if s.get("uniqueItems").and_then(|x| x.as_bool()) == Some(true) && n > 1 {
                 json!((0..n).map(|i| json!(i)).collect::<Vec<_>>())
